@@ -199,7 +199,8 @@ class Reconcile:
                     else child_parent.a.__class__ is not Dict        # value parent is not Dict)
                 )
                 or (
-                    child_parent.a.keys[val_pfield.idx] is not None  # or (key associated with value is not None
+                    (val_pfield.idx >= len(child_parent.a.keys)         # or (recorded index is past the end of a list which has been shortened by the user
+                     or child_parent.a.keys[val_pfield.idx] is not None)  # or key associated with value is not None
                     if (keya := keys[start]) is None                 # if our key is None, else
                     else (
                         not (keyf := getattr(keya, 'f', None))       # if key doesn't have FST
@@ -218,7 +219,7 @@ class Reconcile:
                         or f.parent is not child_parent
                         or f.pfield != ('values', i := child_off_idx + end)
                         or (
-                            child_parent_keys[i] is not None  # child_parent_keys and keys COULD be the same, but not guaranteed
+                            (i >= len(child_parent_keys) or child_parent_keys[i] is not None)  # child_parent_keys and keys COULD be the same, but not guaranteed, and may have been shortened by the user
                             if (a := keys[end]) is None
                             else (
                                 not (f := getattr(a, 'f', None))
@@ -390,7 +391,7 @@ class Reconcile:
                 self.recurse_node(child, astfield(field), outf, nodef)
 
             elif not isinstance(child, list):  # primitive, or None to delete possibly AST child
-                if nodef is not False and child != getattr(outa, field):  # this SHOULDN'T happen if coming from pure AST but could if there was a contradictory value set by the user, so in case of pure AST we don't do this at all because was set correctly on our own put of the AST somewhere above
+                if nodef is not False and (child != (out_child := getattr(outa, field)) or child.__class__ is not out_child.__class__):  # class check because `1 == True`  # this SHOULDN'T happen if coming from pure AST but could if there was a contradictory value set by the user, so in case of pure AST we don't do this at all because was set correctly on our own put of the AST somewhere above
                     outf.put(child, field=field, trivia=self.trivia_ast_put, **self.options)
 
             else:  # slice
